@@ -134,8 +134,10 @@ pub fn gen_dict_program(t: &mut Tape) -> DictProgram {
         src.push_str("Dive takes Depth\nIf Depth is 0\nBuild Doom up\n\nPut Depth minus 1 into Deeper\nGive back Dive taking Deeper\n\n");
         src.push_str("Climb takes Depth\nIf Depth is 0\nGive back \"top\"\n\nPut Depth minus 1 into Deeper\nGive back Climb taking Deeper\n\n");
     }
+    let nops_at = t.pos();
     let nops = 2 + t.draw(7);
     for _ in 0..nops {
+        let op_start = t.pos();
         let a = t.draw(narr as u32) as usize;
         let name = ARR[a];
         let w = [
@@ -260,6 +262,7 @@ pub fn gen_dict_program(t: &mut Tape) -> DictProgram {
                 src.push_str("Put 1 into One\nPut 2 into Two\nPut 3 into Three\nSay Phantom\n");
             }
         }
+        t.element(op_start, nops_at);
     }
     if t.chance(1, 12) {
         features.push("parse error");
